@@ -466,13 +466,14 @@ impl BinaryClassification<&[bool]> for &[Pr] {
         let (mut tp, mut fp) = (0.0, 0.0);
         let mut tps_fps = Vec::new();
         let mut thresholds = Vec::new();
-        let mut s0 = 0.0;
+        // score that opened the current group; no group is open before the first sample
+        let mut s0: Option<f32> = None;
 
         for (s, t) in tuples {
-            if (*s - s0).abs() > 1e-10 {
+            if s0.map_or(true, |s0| (*s - s0).abs() > 1e-10) {
                 tps_fps.push((tp, fp));
                 thresholds.push(s);
-                s0 = *s;
+                s0 = Some(*s);
             }
 
             if t {
